@@ -104,28 +104,28 @@ Fixpoint all_stmts (S:stmt -> Prop) (p:prog) : Prop :=
   | PTry b h e => all_stmts S b /\ all_stmts S h /\ all_stmts S e
   end.
 
-Lemma run_inv k f (I:conn -> Prop) (S:stmt -> Prop) :
+Lemma run_inv k f inj (I:conn -> Prop) (S:stmt -> Prop) :
   (forall s c, S s -> I c -> I (fst (exec k s c))) ->
-  forall p, all_stmts S p -> forall x, I (s_conn x) -> I (s_conn (fst (run k f p x))).
+  forall p, all_stmts S p -> forall x, I (s_conn x) -> I (s_conn (fst (run k f inj p x))).
 Proof.
   intros HS. induction p as [|s|p IHp q IHq|b IHb h IHh els IHe]; cbn [run all_stmts]; intros Hp x Hx.
   - exact Hx.
   - unfold step. destruct (f (s_n x)); cbn; auto.
     specialize (HS s (s_conn x) Hp Hx). destruct (exec k s (s_conn x)); cbn in *; auto.
-  - destruct Hp as [H1 H2]. specialize (IHp H1 x Hx). destruct (run k f p x) as [x1 [e|]]; cbn in *; auto.
-  - destruct Hp as [H1 [H2 H3]]. specialize (IHb H1 x Hx). destruct (run k f b x) as [x1 [e|]]; cbn in *; auto.
-    specialize (IHh H2 x1 IHb). destruct (run k f h x1) as [x2 e2]; cbn in *; auto.
+  - destruct Hp as [H1 H2]. specialize (IHp H1 x Hx). destruct (run k f inj p x) as [x1 [e|]]; cbn in *; auto.
+  - destruct Hp as [H1 [H2 H3]]. specialize (IHb H1 x Hx). destruct (run k f inj b x) as [x1 [e|]]; cbn in *; auto.
+    specialize (IHh H2 x1 IHb). destruct (run k f inj h x1) as [x2 e2]; cbn in *; auto.
 Qed.
 
-Lemma run_log k f p : forall x, exists l, s_log (fst (run k f p x)) = l ++ s_log x.
+Lemma run_log k f inj p : forall x, exists l, s_log (fst (run k f inj p x)) = l ++ s_log x.
 Proof.
   induction p as [|s|p IHp q IHq|b IHb h IHh els IHe]; cbn [run]; intros x.
   - exists []; auto.
   - unfold step. destruct (f (s_n x)); [|destruct (exec k s (s_conn x))]; cbn; exists [kind_of s]; auto.
-  - destruct (IHp x) as [l1 H1]. destruct (run k f p x) as [x1 [e|]]; cbn in *; [eauto|].
+  - destruct (IHp x) as [l1 H1]. destruct (run k f inj p x) as [x1 [e|]]; cbn in *; [eauto|].
     destruct (IHq x1) as [l2 H2]. exists (l2 ++ l1). rewrite H2, H1, app_assoc; auto.
-  - destruct (IHb x) as [l1 H1]. destruct (run k f b x) as [x1 [e|]]; cbn in *.
-    + destruct (IHh x1) as [l2 H2]. destruct (run k f h x1) as [x2 e2]; cbn in *.
+  - destruct (IHb x) as [l1 H1]. destruct (run k f inj b x) as [x1 [e|]]; cbn in *.
+    + destruct (IHh x1) as [l2 H2]. destruct (run k f inj h x1) as [x2 e2]; cbn in *.
       exists (l2 ++ l1). rewrite H2, H1, app_assoc; auto.
     + destruct (IHe x1) as [l2 H2]. exists (l2 ++ l1). rewrite H2, H1, app_assoc; auto.
 Qed.
@@ -139,7 +139,7 @@ Arguments copy_row : simpl never.
 Arguments index_prog : simpl never.
 
 Section Create.
-  Variables (k:kind) (pre:bool) (db:tables) (t tmp:name) (nd:tdef) (tr:list transfer) (ixs:list idx) (f:nat -> bool) (T0:table).
+  Variables (k:kind) (pre:bool) (db:tables) (t tmp:name) (nd:tdef) (tr:list transfer) (ixs:list idx) (f:nat -> bool) (inj:nat -> err) (T0:table).
   Hypothesis HT0 : lookup t db = Some T0.
   Let img := map (copy_row tr) (t_rows T0).
 
@@ -150,10 +150,10 @@ Section Create.
   Definition G (c:conn) : Prop := safe (committed c) /\ safe (current c).
 
   Definition x0 := mkSt (begin_scope k pre db) 0 [].
-  Definition xend := run k f (create_prog t tmp nd tr ixs) x0.
+  Definition xend := run k f inj (create_prog t tmp nd tr ixs) x0.
 
-  Lemma step_eq kk s x : step kk f s x =
-    if f (s_n x) then (mkSt (s_conn x) (S (s_n x)) (kind_of s :: s_log x), Some EInjected)
+  Lemma step_eq kk s x : step kk f inj s x =
+    if f (s_n x) then (mkSt (s_conn x) (S (s_n x)) (kind_of s :: s_log x), Some (inj (s_n x)))
     else let (c, e) := exec kk s (s_conn x) in (mkSt c (S (s_n x)) (kind_of s :: s_log x), e).
   Proof. reflexivity. Qed.
 
@@ -186,9 +186,9 @@ Section Create.
     - right; right. rewrite L in H1; inversion H1; subst T'. eexists; split; [cbn [lookup set_tbl]; rewrite name_eqb_refl; reflexivity|]. cbn; auto.
   Qed.
 
-  Lemma index_G kk x : G (s_conn x) -> G (s_conn (fst (run kk f (index_prog t ixs) x))).
+  Lemma index_G kk x : G (s_conn x) -> G (s_conn (fst (run kk f inj (index_prog t ixs) x))).
   Proof.
-    apply (run_inv kk f G (fun s => exists i, s = SCreateIndex t i)).
+    apply (run_inv kk f inj G (fun s => exists i, s = SCreateIndex t i)).
     - intros s c [i ->] [Hc Hu]. unfold G.
       destruct kk; cbn [exec is_dml]; destruct (apply_stmt (SCreateIndex t i) (current c)) as [tb|e] eqn:A;
         try (destruct (intx c)); cbn [fst committed current]; try (split; auto; fail);
@@ -211,8 +211,8 @@ Section Create.
   Lemma early_false log a b : In (KRename a b) log -> early (rev log) = false.
   Proof. intros H. unfold early. apply negb_false_iff. apply existsb_exists. exists (KRename a b). split; auto.
     apply in_rev. rewrite rev_involutive. auto. Qed.
-  Lemma run_keeps_rename kk p x a b : In (KRename a b) (s_log x) -> early (rev (s_log (fst (run kk f p x)))) = false.
-  Proof. intros H. destruct (run_log kk f p x) as [l Hl]. apply (early_false _ a b). rewrite Hl. apply in_or_app; auto. Qed.
+  Lemma run_keeps_rename kk p x a b : In (KRename a b) (s_log x) -> early (rev (s_log (fst (run kk f inj p x)))) = false.
+  Proof. intros H. destruct (run_log kk f inj p x) as [l Hl]. apply (early_false _ a b). rewrite Hl. apply in_or_app; auto. Qed.
 
   Ltac logsim := cbn [rev app early existsb is_rename negb orb s_log fst].
 
@@ -291,9 +291,9 @@ Section Create.
     - cbn [lookup set_tbl]. rewrite Hmt. auto.
     - rewrite L in H2; inversion H2; subst T'. eexists; split; [cbn [lookup set_tbl]; rewrite name_eqb_refl; reflexivity|]. cbn; auto.
   Qed.
-  Lemma index_J kk x : J (s_conn x) -> J (s_conn (fst (run kk f (index_prog t ixs) x))).
+  Lemma index_J kk x : J (s_conn x) -> J (s_conn (fst (run kk f inj (index_prog t ixs) x))).
   Proof.
-    apply (run_inv kk f J (fun s => exists i, s = SCreateIndex t i)).
+    apply (run_inv kk f inj J (fun s => exists i, s = SCreateIndex t i)).
     - intros s c [i ->] HJ. unfold J in *.
       destruct kk; cbn [exec is_dml]; destruct (apply_stmt (SCreateIndex t i) (current c)) as [tb|e] eqn:A;
         try (destruct (intx c)); cbn [fst committed current]; auto; apply (index_J_apply _ _ _ A HJ).
@@ -310,7 +310,7 @@ End Create.
 
 (* ------------------------------------------------------------------ facts that need no case analysis *)
 Section Frame.
-  Variables (k:kind) (pre:bool) (db:tables) (t tmp:name) (nd:tdef) (tr:list transfer) (ixs:list idx) (f:nat -> bool).
+  Variables (k:kind) (pre:bool) (db:tables) (t tmp:name) (nd:tdef) (tr:list transfer) (ixs:list idx) (f:nat -> bool) (inj:nat -> err).
 
   Definition touches_only (s:stmt) : Prop :=
     match s with
@@ -350,9 +350,9 @@ Section Frame.
       try destruct (intx c); cbn [fst committed current]; auto;
       pose proof (apply_frame _ _ _ n Hs Hn A) as Hf; rewrite ?Hf; auto.
   Qed.
-  Lemma create_frame : frame_inv (s_conn (fst (run k f (create_prog t tmp nd tr ixs) (mkSt (begin_scope k pre db) 0 [])))).
+  Lemma create_frame : frame_inv (s_conn (fst (run k f inj (create_prog t tmp nd tr ixs) (mkSt (begin_scope k pre db) 0 [])))).
   Proof.
-    apply (run_inv k f frame_inv touches_only).
+    apply (run_inv k f inj frame_inv touches_only).
     - intros; apply exec_frame; auto.
     - apply create_prog_touches.
     - intros n Hn. cbn. auto.
@@ -366,10 +366,10 @@ Section Frame.
       rewrite ?H2; cbn; unfold tx_inv; cbn; auto.
   Qed.
   Lemma create_tx : k = TxDDL \/ (k = Pysqlite /\ pre = true) ->
-    committed (s_conn (fst (run k f (create_prog t tmp nd tr ixs) (mkSt (begin_scope k pre db) 0 [])))) = db.
+    committed (s_conn (fst (run k f inj (create_prog t tmp nd tr ixs) (mkSt (begin_scope k pre db) 0 [])))) = db.
   Proof.
     intros Hk.
-    apply (run_inv k f tx_inv (fun _ => True)).
+    apply (run_inv k f inj tx_inv (fun _ => True)).
     - intros; apply exec_tx; auto. destruct Hk as [?|[? ?]]; auto.
     - apply create_prog_all; auto.
     - unfold tx_inv. destruct Hk as [->|[-> ->]]; cbn; auto.
@@ -378,9 +378,9 @@ End Frame.
 
 
 (* ------------------------------------------------------------------ the temporary name is the table's own name *)
-Lemma create_same k pre db t tmp nd tr ixs f T0 :
+Lemma create_same k pre db t tmp nd tr ixs f inj T0 :
   lookup t db = Some T0 -> name_eqb t tmp = true ->
-  exists e, run k f (create_prog t tmp nd tr ixs) (mkSt (begin_scope k pre db) 0 [])
+  exists e, run k f inj (create_prog t tmp nd tr ixs) (mkSt (begin_scope k pre db) 0 [])
             = (mkSt (begin_scope k pre db) 1 [KCreate tmp], Some e).
 Proof.
   intros HT0 E. apply name_eqb_eq in E. subst tmp. unfold create_prog. cbn [run]. rewrite step_eq. cbn [s_n s_conn s_log].
@@ -389,25 +389,25 @@ Proof.
 Qed.
 
 (* ------------------------------------------------------------------ statements about run_batch *)
-Lemma run_batch_eq k pre db t nd tr ixs f sc :
-  run_batch k pre db t nd tr ixs f sc =
-  let xe := run k f (create_prog t (calc_temp_name t) nd tr ixs) (mkSt (begin_scope k pre db) 0 []) in
+Lemma run_batch_eq k pre db t nd tr ixs f inj sc :
+  run_batch k pre db t nd tr ixs f inj sc =
+  let xe := run k f inj (create_prog t (calc_temp_name t) nd tr ixs) (mkSt (begin_scope k pre db) 0 []) in
   let fin := end_scope (eff_outcome sc (snd xe)) (s_conn (fst xe)) in
   mkResult (snd xe) (rev (s_log (fst xe)))
            (match sc with Caller _ => current (s_conn (fst xe)) | OwnScope => fin end) fin.
 Proof. unfold run_batch. destruct (run _ _ _ _) as [x e]. reflexivity. Qed.
 
 Section Top.
-  Variables (k:kind) (pre:bool) (db:tables) (t:name) (nd:tdef) (tr:list transfer) (ixs:list idx) (f:nat -> bool) (sc:scope) (T0:table).
+  Variables (k:kind) (pre:bool) (db:tables) (t:name) (nd:tdef) (tr:list transfer) (ixs:list idx) (f:nat -> bool) (inj:nat -> err) (sc:scope) (T0:table).
   Hypothesis HT0 : lookup t db = Some T0.
   Let tmp := calc_temp_name t.
-  Let r := run_batch k pre db t nd tr ixs f sc.
+  Let r := run_batch k pre db t nd tr ixs f inj sc.
 
   Lemma neq_both : name_eqb t tmp = false -> name_eqb tmp t = false.
   Proof. rewrite name_eqb_sym; auto. Qed.
 
-  Lemma final_cases : r_final r = committed (s_conn (fst (xend k pre db t tmp nd tr ixs f)))
-                   \/ r_final r = current (s_conn (fst (xend k pre db t tmp nd tr ixs f))).
+  Lemma final_cases : r_final r = committed (s_conn (fst (xend k pre db t tmp nd tr ixs f inj)))
+                   \/ r_final r = current (s_conn (fst (xend k pre db t tmp nd tr ixs f inj))).
   Proof. unfold r. rewrite run_batch_eq. cbn [r_final]. fold tmp. unfold xend, x0.
     destruct (eff_outcome sc _); cbn [end_scope]; auto. Qed.
 
@@ -415,20 +415,20 @@ Section Top.
   Theorem no_row_lost_lk : safe t tmp nd tr T0 (r_final r).
   Proof.
     destruct (name_eqb t tmp) eqn:E.
-    - destruct (create_same k pre db t tmp nd tr ixs f T0 HT0 E) as [e Hc].
+    - destruct (create_same k pre db t tmp nd tr ixs f inj T0 HT0 E) as [e Hc].
       left. exists T0. split; auto.
       destruct final_cases as [H|H]; rewrite H; unfold xend, x0; rewrite Hc; destruct k, pre; cbn; auto.
-    - pose proof (create_G k pre db t tmp nd tr ixs f T0 HT0 E (neq_both E)) as [H1 H2].
+    - pose proof (create_G k pre db t tmp nd tr ixs f inj T0 HT0 E (neq_both E)) as [H1 H2].
       destruct final_cases as [H|H]; rewrite H; auto.
   Qed.
 
   Theorem original_untouched_lk : early (r_log r) = true -> lookup t (r_final r) = Some T0.
   Proof.
     destruct (name_eqb t tmp) eqn:E.
-    - intros _. destruct (create_same k pre db t tmp nd tr ixs f T0 HT0 E) as [e Hc].
+    - intros _. destruct (create_same k pre db t tmp nd tr ixs f inj T0 HT0 E) as [e Hc].
       destruct final_cases as [H|H]; rewrite H; unfold xend, x0; rewrite Hc; destruct k, pre; cbn; auto.
     - unfold r at 1. rewrite run_batch_eq. cbn [r_log]. fold tmp. intros He.
-      destruct (create_untouched k pre db t tmp nd tr ixs f T0 HT0 E (neq_both E) He) as [H1 H2].
+      destruct (create_untouched k pre db t tmp nd tr ixs f inj T0 HT0 E (neq_both E) He) as [H1 H2].
       destruct final_cases as [H|H]; rewrite H; auto.
   Qed.
 
@@ -442,7 +442,7 @@ Section Top.
   Proof.
     unfold r. rewrite run_batch_eq. cbn [r_log r_err r_final]. fold tmp. intros He Hfresh Hcl Hclass.
     pose proof (fresh_neq Hfresh) as E.
-    apply (create_tmp_gone k pre db t tmp nd tr ixs f T0 HT0 E (neq_both E)); auto.
+    apply (create_tmp_gone k pre db t tmp nd tr ixs f inj T0 HT0 E (neq_both E)); auto.
   Qed.
 
   Theorem tmp_resurrected_lk :
@@ -452,7 +452,7 @@ Section Top.
   Proof.
     unfold r. rewrite run_batch_eq. cbn [r_log r_err r_final]. fold tmp. intros Hk Hp Hcr Hoc He Hfresh Hcl.
     pose proof (fresh_neq Hfresh) as E. rewrite Hoc. cbn [end_scope].
-    apply (create_tmp_resurrected k pre db t tmp nd tr ixs f T0 HT0 E (neq_both E)); auto.
+    apply (create_tmp_resurrected k pre db t tmp nd tr ixs f inj T0 HT0 E (neq_both E)); auto.
   Qed.
 
   Theorem natural_copy_failure_lk :
@@ -461,7 +461,7 @@ Section Top.
     lookup t (r_final r) = Some T0.
   Proof.
     intros Hf Hfresh Hv. pose proof (fresh_neq Hfresh) as E.
-    destruct (create_natural k pre db t tmp nd tr ixs f T0 HT0 E (neq_both E) Hf Hfresh Hv) as [H1 [H2 [H3 [H4 H5]]]].
+    destruct (create_natural k pre db t tmp nd tr ixs f inj T0 HT0 E (neq_both E) Hf Hfresh Hv) as [H1 [H2 [H3 [H4 H5]]]].
     assert (Hl : r_log r = [KCreate tmp; KCopy t tmp; KDrop tmp]) by (unfold r; rewrite run_batch_eq; cbn [r_log]; fold tmp; auto).
     repeat split; auto.
     - unfold r; rewrite run_batch_eq; cbn [r_err]; fold tmp; auto.
@@ -471,7 +471,7 @@ Section Top.
 
   Theorem others_untouched_lk : forall n, n <> t -> n <> tmp -> lookup n (r_final r) = lookup n db.
   Proof.
-    intros n Hn1 Hn2. pose proof (create_frame k pre db t tmp nd tr ixs f) as Hfr.
+    intros n Hn1 Hn2. pose proof (create_frame k pre db t tmp nd tr ixs f inj) as Hfr.
     assert (Ho : other t tmp n) by (split; apply name_eqb_neq; auto).
     destruct (Hfr n Ho) as [H1 H2]. destruct final_cases as [H|H]; rewrite H; auto.
   Qed.
@@ -490,7 +490,7 @@ Section Top.
   Proof.
     unfold r. rewrite run_batch_eq. cbn [r_err r_final]. fold tmp. intros Hfresh He Hoc. rewrite Hoc. cbn [end_scope].
     pose proof (fresh_neq Hfresh) as E.
-    apply (create_success k pre db t tmp nd tr ixs f T0 HT0 E (neq_both E)); auto.
+    apply (create_success k pre db t tmp nd tr ixs f inj T0 HT0 E (neq_both E)); auto.
   Qed.
 End Top.
 
@@ -558,9 +558,9 @@ Proof.
   intros Hc. unfold C11_holds. intros Herr T0 HT0. split; [apply no_row_lost_obs; auto|].
   rewrite mo_log. rewrite mo_err in Herr. intros He. split.
   - unfold original_untouched. rewrite mo_final, obs_lookup_obs_of.
-    unfold model_res in *. rewrite (original_untouched_lk _ _ _ _ _ _ _ _ _ T0 HT0 He). cbn. eexists; split; eauto. apply otable_equiv_refl.
+    unfold model_res in *. rewrite (original_untouched_lk _ _ _ _ _ _ _ _ _ _ T0 HT0 He). cbn. eexists; split; eauto. apply otable_equiv_refl.
   - intros Hfresh Hclean. rewrite mo_final, obs_lookup_obs_of. unfold model_res in *.
-    rewrite (tmp_gone_lk _ _ _ _ _ _ _ _ _ T0 HT0 He Hfresh Hclean); auto.
+    rewrite (tmp_gone_lk _ _ _ _ _ _ _ _ _ _ T0 HT0 He Hfresh Hclean); auto.
     unfold inclass_C11 in Hc. destruct (r_err _) as [e|]; [|congruence].
     rewrite (eff_outcome_err _ e EInjected). auto.
 Qed.
@@ -572,7 +572,7 @@ Definition wit_t : name := [116]%N.
 Definition wit_rows : list row := [[VInt 1; VInt 1; VText [120]%N]; [VInt 2; VNull; VText [121]%N]; [VInt 3; VInt 3; VText [121]%N]].
 Definition wit_db : tables := [(wit_t, Some (mkTable (mkDef 10 [0%nat] [[0%nat]] []) wit_rows []))].
 Definition wit (sc:scope) : input :=
-  mkIn Pysqlite false wit_db wit_t (mkDef 11 [0%nat; 1%nat] [[0%nat]] []) [TCol 0; TCol 1; TCol 2] [] [] sc.
+  mkIn Pysqlite false wit_db wit_t (mkDef 11 [0%nat; 1%nat] [[0%nat]] []) [TCol 0; TCol 1; TCol 2] [] [] sc None.
 
 Theorem tmp_gone_refuted : exists i, inclass_C11 i = false /\ check_C11 i (model_out i) = false /\ ~ C11_holds i (model_out i).
 Proof.
@@ -587,3 +587,51 @@ Proof.
     by (intros j _; reflexivity).
   specialize (H3 Hfresh Hclean). vm_compute in H3. discriminate.
 Qed.
+
+(* ------------------------------------------------------------------ the exception class of an injected fault is irrelevant *)
+(* bare `except:` — the handler runs for Exception and non-Exception BaseException alike: what is sent to the database and
+   what the database holds do not depend on which class the injected faults raise; only the class that propagates does *)
+Lemma run_inj_indep k f inj inj' p : forall x,
+  fst (run k f inj p x) = fst (run k f inj' p x) /\ (snd (run k f inj p x) = None <-> snd (run k f inj' p x) = None).
+Proof.
+  induction p as [|s|p IHp q IHq|b IHb h IHh els IHe]; cbn [run]; intros x.
+  - split; tauto.
+  - unfold step. destruct (f (s_n x)); cbn; [split; [auto|split; discriminate]|].
+    destruct (exec k s (s_conn x)); cbn; split; tauto.
+  - destruct (IHp x) as [H1 H2]. destruct (run k f inj p x) as [x1 e1]; destruct (run k f inj' p x) as [x1' e1']; cbn in *. subst x1'.
+    destruct e1, e1'; cbn; try (split; [auto|split; discriminate]).
+    + exfalso. destruct H2 as [_ H2]. specialize (H2 eq_refl). discriminate.
+    + exfalso. destruct H2 as [H2 _]. specialize (H2 eq_refl). discriminate.
+    + apply IHq.
+  - destruct (IHb x) as [H1 H2]. destruct (run k f inj b x) as [x1 e1]; destruct (run k f inj' b x) as [x1' e1']; cbn in *. subst x1'.
+    destruct e1, e1'.
+    + destruct (IHh x1) as [H3 _]. destruct (run k f inj h x1) as [x2 e2]; destruct (run k f inj' h x1) as [x2' e2']; cbn in *. subst.
+      split; [auto|split; discriminate].
+    + exfalso. destruct H2 as [_ H2]. specialize (H2 eq_refl). discriminate.
+    + exfalso. destruct H2 as [H2 _]. specialize (H2 eq_refl). discriminate.
+    + apply IHe.
+Qed.
+
+Theorem exception_class_irrelevant k pre db t nd tr ixs f inj inj' sc :
+  let r := run_batch k pre db t nd tr ixs f inj sc in
+  let r' := run_batch k pre db t nd tr ixs f inj' sc in
+  r_log r = r_log r' /\ r_mid r = r_mid r' /\ r_final r = r_final r' /\ (r_err r = None <-> r_err r' = None).
+Proof.
+  cbn zeta. rewrite !run_batch_eq. cbn [r_log r_mid r_final r_err].
+  destruct (run_inj_indep k f inj inj' (create_prog t (calc_temp_name t) nd tr ixs) (mkSt (begin_scope k pre db) 0 [])) as [H1 H2].
+  rewrite H1.
+  assert (Ho : eff_outcome sc (snd (run k f inj (create_prog t (calc_temp_name t) nd tr ixs) (mkSt (begin_scope k pre db) 0 [])))
+             = eff_outcome sc (snd (run k f inj' (create_prog t (calc_temp_name t) nd tr ixs) (mkSt (begin_scope k pre db) 0 [])))).
+  { clear H1. revert H2.
+    generalize (snd (run k f inj (create_prog t (calc_temp_name t) nd tr ixs) (mkSt (begin_scope k pre db) 0 []))).
+    generalize (snd (run k f inj' (create_prog t (calc_temp_name t) nd tr ixs) (mkSt (begin_scope k pre db) 0 []))).
+    intros e2 e1 [Ha Hb]. destruct sc, e1, e2; cbn [eff_outcome]; auto.
+    - specialize (Hb eq_refl). discriminate.
+    - specialize (Ha eq_refl). discriminate. }
+  rewrite Ho. repeat split; auto; apply H2.
+Qed.
+
+(* the exception that propagates is the injected one when a single statement of the try body is hit and the handler is not *)
+Theorem tddl_irrelevant k pre db t nd tr ixs fl sc v1 v2 :
+  model_out (mkIn k pre db t nd tr ixs fl sc v1) = model_out (mkIn k pre db t nd tr ixs fl sc v2).
+Proof. reflexivity. Qed.
